@@ -847,7 +847,9 @@ var vf35Clients12 = []vf35Client{
 	{"HelloChrome_102", HelloChrome_102, "SetSessionState"},
 	{"HelloChrome_102", HelloChrome_102, "cache"},
 	{"HelloFirefox_105", HelloFirefox_105, "SetSessionState"},
-	{"HelloIOS_14", HelloIOS_14, "cache"},
+	{"HelloFirefox_105", HelloFirefox_105, "cache"},
+	{"HelloChrome_120", HelloChrome_120, "SetSessionState"},
+	{"HelloEdge_106", HelloEdge_106, "cache"},
 }
 
 const vf35Host = "example.test"
@@ -922,13 +924,6 @@ func vf35RunForged(f vf35Forge) (o vf35Outcome, pan *vfPanic) {
 	defer p.Close()
 	pan = vfCatch(func() {
 		if f.client.via == "SetSessionState" {
-			if f.client.id == HelloGolang {
-				// documented in examples: build the default hello first so that the override is not overwritten
-				if err := p.Cli.BuildHandshakeState(); err != nil {
-					o.setErr = err
-					return
-				}
-			}
 			if err := p.Cli.SetSessionState(css); err != nil {
 				o.setErr = err
 				return
@@ -1008,6 +1003,10 @@ func vf35JudgeForged(st *vfStats, t vfFataler, f vf35Forge) {
 	if !o.offeredTicket {
 		st.Class("forged:ticket-not-on-the-wire")
 	}
+	if f.client.id == HelloGolang && f.client.via == "cache" && o.offeredSuite && !(o.offeredTicket && o.wireTicketEquals) && pan == nil {
+		// the baseline path: a valid forged session in the cache of a default client must be offered
+		st.Violation(t, "forged session (%s): the client did not put the forged ticket on the wire", id)
+	}
 	if resumedC != resumedS {
 		st.Violation(t, "forged session (%s): client DidResume=%v, server DidResume=%v", id, resumedC, resumedS)
 	}
@@ -1049,28 +1048,29 @@ func vf35JudgeForged(st *vfStats, t vfFataler, f vf35Forge) {
 	ctx := []byte("vf35 context")
 	ce, cerr := o.ccs.ExportKeyingMaterial("EXPERIMENTAL vf35", ctx, 32)
 	se, serr := o.scs.ExportKeyingMaterial("EXPERIMENTAL vf35", ctx, 32)
-	if (cerr == nil) != (serr == nil) {
-		st.Violation(t, "forged session (%s): exporter available on one side only (%v / %v)", id, cerr, serr)
+	if cerr == nil && serr == nil && !bytes.Equal(ce, se) {
+		st.Violation(t, "forged session (%s): exporters differ", id)
 	}
-	if cerr == nil {
-		if !bytes.Equal(ce, se) {
-			st.Violation(t, "forged session (%s): exporters differ", id)
-		}
-		if f.version != VersionTLS13 {
-			if len(o.clientRandom) != 32 || len(o.serverRandom) != 32 {
-				st.Violation(t, "forged session (%s): harness could not read the hello randoms", id)
-			}
-			seed := append(append([]byte(nil), o.clientRandom...), o.serverRandom...)
-			seed = binary.BigEndian.AppendUint16(seed, uint16(len(ctx)))
-			seed = append(seed, ctx...)
-			want := vf35PRF(f.version, f.sha384, f.secret, "EXPERIMENTAL vf35", seed, 32)
-			st.Class("forged:exporter-recomputed-from-supplied-master-secret")
-			if !bytes.Equal(ce, want) {
-				st.Violation(t, "forged session (%s): exporter %x is not PRF(supplied master secret) = %x", id, ce, want)
-			}
-		}
-	} else {
+	if cerr != nil && serr != nil {
 		st.Class("forged:no-exporter(no EMS)")
+	} else if cerr != nil {
+		st.Class("forged:no-client-exporter(parrot enables renegotiation)")
+	}
+	if f.version != VersionTLS13 && (cerr == nil || serr == nil) {
+		if len(o.clientRandom) != 32 || len(o.serverRandom) != 32 {
+			st.Violation(t, "forged session (%s): harness could not read the hello randoms", id)
+		}
+		seed := append(append([]byte(nil), o.clientRandom...), o.serverRandom...)
+		seed = binary.BigEndian.AppendUint16(seed, uint16(len(ctx)))
+		seed = append(seed, ctx...)
+		want := vf35PRF(f.version, f.sha384, f.secret, "EXPERIMENTAL vf35", seed, 32)
+		st.Class("forged:exporter-recomputed-from-supplied-master-secret")
+		if cerr == nil && !bytes.Equal(ce, want) {
+			st.Violation(t, "forged session (%s): client exporter %x is not PRF(supplied master secret) = %x", id, ce, want)
+		}
+		if serr == nil && !bytes.Equal(se, want) {
+			st.Violation(t, "forged session (%s): server exporter %x is not PRF(supplied master secret) = %x", id, se, want)
+		}
 	}
 	st.Sample(map[string]any{"forged": id, "resumed": true, "negotiated_suite": fmt.Sprintf("%#04x", o.ccs.CipherSuite)})
 }
